@@ -1912,7 +1912,8 @@ class SupplyChainNode(object):
 		else:
 			succ_ind = successor
 
-		self._successor_indices.remove(succ_ind)
+		if succ_ind in self._successor_indices:
+			self._successor_indices.remove(succ_ind)
 
 	def remove_predecessor(self, predecessor):
 		"""Remove ``predecessor`` from the node's set of predecessors. ``predecessor`` may
@@ -1935,7 +1936,8 @@ class SupplyChainNode(object):
 		else:
 			pred_ind = predecessor
 
-		self._predecessor_indices.remove(pred_ind)
+		if pred_ind in self._predecessor_indices:
+			self._predecessor_indices.remove(pred_ind)
 
 	def get_one_successor(self):
 		"""Get one successor of the node. If the node has more than one
